@@ -154,5 +154,13 @@ def demoG : LALR.G := ⟨3, 2, [(0, [.nt 0, .t 1, .nt 0]), (0, [.nt 0, .t 0, .nt
   [(.left, [.term 1]), (.left, [.term 0])]⟩
 example : (LALR.build demoG 100).isSome = true := by decide +kernel
 example : LALR.beats demoG 0 (1, 0) (0, 5) = some true := by decide +kernel
+/-- an entry with a shift and two reductions whose handles share a level (the case the dependency settled in four of
+    six visiting orders only): terminals `+`(0) and `z`(1), `@left "+"` before `@left "z"`; the shift on `+` beats both
+    reductions by `a = z` and `b = z`, which cannot be compared with each other - in every order the shift is chosen -/
+def threeWay : LALR.G := ⟨2, 3, [(0, [.nt 1, .t 0]), (0, [.nt 2, .t 0]), (0, [.t 1, .t 0]), (1, [.t 1]), (2, [.t 1]), (3, [.nt 0])],
+  [(.left, [.term 0]), (.left, [.term 1])]⟩
+example : LALR.resolveCell threeWay 0 [(0, 7), (1, 3), (1, 4)] = some (0, 7) ∧
+    LALR.resolveCell threeWay 0 [(1, 3), (1, 4), (0, 7)] = some (0, 7) ∧
+    LALR.resolveCell threeWay 0 [(1, 3), (1, 4)] = none := by decide +kernel
 
 end Emerge.Props.C06
